@@ -144,7 +144,9 @@ class SimNet:
         ep = self.endpoints.get(("::", dst[1]))
         if ep is not None:
             return ep
-        if ipaddress.ip_address(dst[0]).is_multicast:
+        a = ipaddress.ip_address(dst[0])
+        a = getattr(a, "ipv4_mapped", None) or a  # an IPv4 group reaches a dual-stack socket as ::ffff:a.b.c.d
+        if a.is_multicast:
             for (ip, port), e in self.endpoints.items():
                 if port == dst[1] and getattr(e, "joins_multicast", False):
                     return e
